@@ -987,6 +987,7 @@ def main(argv: List[str]) -> int:
     if a.budget:
         cfg["budget"] = a.budget
     seed = core.base_seed(20261003)
+    core.cleanup_stale_scratch()
     rep = core.Report(PROP, tier, seed)
     rep.log(f"VERIF_SEED={seed} tier={tier} histories<={cfg['histories']} workers={core.n_workers()} repo={core.repo_root()}")
     try:
